@@ -201,7 +201,11 @@ def run_shard(ctx):
         if j < 2:
             acc.sample(dict(input=core.trunc(text, 500), cfg=cfg))
     # degenerate roots under a grid of configurations (the root start / end tags are written by separate code paths)
-    roots = ["<svg/>", "<svg />", '<svg width="10"/>', '<svg viewBox="0 0 1 1" class="c"/>', "<svg></svg>", "<svg>\n</svg>", "<svg/>\n<!-- after -->",
+    roots = ['<svg xmlns:xlink="http://www.w3.org/1999/xlink"><rect wh="1"/></svg>', '<svg xmlns:xlink="http://www.w3.org/1999/xlink"/>',
+             # a namespaced <svg> as the FIRST child (of the root / of a group): it alone is passed through
+             '<svg><svg xmlns="http://www.w3.org/2000/svg" width="5" height="5"><rect width="3" height="3"/></svg><rect xy="10 0" wh="4" text="x"/></svg>',
+             '<svg>\n  <g><svg xmlns="http://www.w3.org/2000/svg"><circle r="2"/></svg><rect wh="2" text="t"/></g>\n</svg>',
+             "<svg/>", "<svg />", '<svg width="10"/>', '<svg viewBox="0 0 1 1" class="c"/>', "<svg></svg>", "<svg>\n</svg>", "<svg/>\n<!-- after -->",
              "<svg><!-- only a comment --></svg>", '<svg/>\n', "<?xml version=\"1.0\"?><svg/>", "<svg><style>a{}</style></svg>", "<svg><defs/></svg>"]
     k = 0
     for t in roots:
